@@ -526,12 +526,12 @@ pub fn run(args: &Args) -> i32 {
     });
     // --- C: keys
     if !nocrypto {
-        let n_keys = budget(args, 6, 1_500, 40_000);
+        let n_keys = budget(args, 3, 1_500, 40_000);
         let thorough = args.tier == vmon::Tier::Thorough;
         vmon::par_cases(&check, n_keys, args.threads, |i, rng| {
             let kind = (i % 3) as usize;
             let kp = gen_key(kind, rng);
-            judge_key(&check, kind, &kp, rng, thorough || i < 30);
+            judge_key(&check, kind, &kp, rng, thorough || (i < 30 && !is_tiny(args)));
         });
         // RSA: the three test keys; decode direction of the private encoding via a hand-built message
         // (`--norsa 1`: skipped, ring is FFI and cannot run under Miri)
@@ -547,7 +547,7 @@ pub fn run(args: &Args) -> i32 {
                 Err(p) => check.violation(format!("panic@{}", p.site()), p.msg.clone(), json!({"rsa_key": i})),
             }
         }
-        let n_arb = budget(args, 200, 150_000, 3_000_000);
+        let n_arb = budget(args, 60, 150_000, 3_000_000);
         vmon::par_cases(&check, n_arb, args.threads, |_, rng| {
             let b = gen_arbitrary_key_bytes(rng);
             check_decode_total(&check, &b, "arbitrary");
@@ -555,7 +555,7 @@ pub fn run(args: &Args) -> i32 {
         });
         // every <= 2-byte string as a key message
         check_decode_total(&check, &[], "exhaustive");
-        let lim = budget(args, 2, 256, 256);
+        let lim = budget(args, 1, 256, 256);
         for a in 0..lim {
             check_decode_total(&check, &[a as u8], "exhaustive");
             for b in 0..=255u8 {
